@@ -113,6 +113,51 @@ Example ex_v1_32_bytes :
   end.
 Proof. vm_compute. reflexivity. Qed.
 
+(* ---------------------------------------------------------------- reject, then accept; one-pass variant refuted *)
+(* three default-typed names; the first device lacks the third one (name 21): KeyError, the configuration
+   keeps vars = [] and all three pending names; the second device has them all: accepted with exactly
+   three variables *)
+Definition ex_toc_small : toc := [mkT 20 7 7; mkT 1 301 1].
+Definition ex_reject_then_accept : list ev :=
+  [ERefresh true; EPacket 1 [5; 0; 0]; ESetToc ex_toc_small;
+   ENew 100; EAddVar 0 20 0; EAddVar 0 1 0; EAddVar 0 21 0; EAddConfig 0; ELinkDown;
+   ERefresh true; EPacket 1 [5; 0; 0]; ESetToc (ex_toc ++ [mkT 21 9 3]); EAddConfig 0].
+
+Example ex_rejected_add_changes_nothing :
+  let s7 := final init_st (firstn 7 ex_reject_then_accept) in
+  let s8 := final init_st (firstn 8 ex_reject_then_accept) in
+  snd (add_config s7 0) = AccRejected KeyError /\ s8 = s7 /\
+  c_vars (get s8 0) = [] /\ c_dfa (get s8 0) = [20; 1; 21] /\ s_blocks s8 = [] /\
+  c_vars (get (final init_st ex_reject_then_accept) 0)
+    = [mkVar true 20 7 7 0; mkVar true 1 1 1 0; mkVar true 21 3 3 0].
+Proof. vm_compute. repeat split; reflexivity. Qed.
+
+(* the one-pass loop (seeded/C05-f): every name is appended as soon as it resolves, the pending list is
+   cleared only when the loop completes *)
+Fixpoint onepass (tc : toc) (names : list Z) (vs : list var) : list var * bool :=
+  match names with
+  | [] => (vs, true)
+  | n :: r => match toc_by_complete_name tc n with
+              | None => (vs, false)
+              | Some e => onepass tc r (vs ++ [mkVar true n (t_ctype e) (t_ctype e) 0])
+              end
+  end.
+
+(* what the one-pass loop leaves in the configuration after the rejection, and after the later
+   acceptance: the sequence of requested names [20; 1; 21] becomes [20; 1; 20; 1; 21] -- it does not
+   continue (`extends`) the configuration it started from *)
+Example ex_onepass_duplicates :
+  let '(vs1, ok1) := onepass ex_toc_small [20; 1; 21] [] in
+  let '(vs2, ok2) := onepass (ex_toc ++ [mkT 21 9 3]) [20; 1; 21] vs1 in
+  ok1 = false /\ ok2 = true /\ map v_name vs1 = [20; 1] /\ map v_name vs2 = [20; 1; 20; 1; 21] /\
+  let c0 := set_dfa (new_cfg 100) [20; 1; 21] in
+  let c1 := set_vars c0 vs1 in                  (* rejected: names appended AND still pending *)
+  name_seq c0 = [20; 1; 21] /\ name_seq c1 = [20; 1; 20; 1; 21] /\ ~ extends c0 c1.
+Proof.
+  vm_compute. repeat split; try reflexivity.
+  intros (rs & A & B). cbn in A, B. subst rs. cbn in B. discriminate.
+Qed.
+
 (* SyncLogger: samples queued when the link is lost are not yielded *)
 Example ex_sync_session :
   snd (sl_run sl_init [SConnect; SSample 1; SSample 2; SNext; SSample 3; SLinkLost; SNext; SNext])
